@@ -152,8 +152,9 @@ pub fn c10_configs(thorough: bool) -> Vec<EpCfg> {
                 set_interval: vec![Some(3)],
                 ..Alph::default()
             };
-            c.connects = vec![ConnProf { ka: 10, ..ConnProf::basic(true) }, ConnProf { ka: 10, rm: Some(1), tam: Some(1), mps: Some(40), ..ConnProf::basic(false) }];
-            c.connacks = vec![AckProf::basic(false), AckProf { rm: Some(1), tam: Some(1), mps: Some(40), ska: Some(7), ..AckProf::basic(true) }, AckProf { ok: false, ..AckProf::basic(false) }];
+            // limits of the first connection: generous and tiny (smaller than the next CONNECT / CONNACK)
+            c.connects = vec![ConnProf { ka: 10, ..ConnProf::basic(true) }, ConnProf { ka: 10, rm: Some(1), tam: Some(1), mps: Some(40), ..ConnProf::basic(false) }, ConnProf { mps: Some(10), ..ConnProf::basic(true) }];
+            c.connacks = vec![AckProf::basic(false), AckProf { rm: Some(1), tam: Some(1), mps: Some(40), ska: Some(7), ..AckProf::basic(true) }, AckProf { ok: false, ..AckProf::basic(false) }, AckProf { mps: Some(10), ..AckProf::basic(false) }];
             c.groups = vec![];
             v.push(c);
         }
